@@ -45,6 +45,9 @@ V6Class(g) ==
   ELSE IF g[1] \div 256 = 255 THEN "multicast"
   ELSE IF g[1] = 8193 /\ g[2] = 3512 THEN "documentation"
   ELSE "global"
-AddrClass(a) == (IF Len(a) = 5 THEN "ipv4" ELSE "ipv6_" \o V6Class(a))
+(* number of non-zero 16-bit groups: the dependency's IPv6 word encoding depends on the shape of the address, not only on its class *)
+NzDigits == <<"0", "1", "2", "3", "4", "5", "6", "7", "8">>
+Nz(g) == Cardinality({i \in 1..8 : g[i] # 0})
+AddrClass(a) == (IF Len(a) = 5 THEN "ipv4" ELSE "ipv6_" \o V6Class(a) \o "_nz" \o NzDigits[Nz(a) + 1])
                 \o (IF a[Len(a)] = 65535 THEN "_port_65535" ELSE "")
 =============================================================================
